@@ -277,7 +277,12 @@ func (it *intTr) tr1(t *Term) *Term {
 				}
 				return modT(it.tr(t.Args[0]), IntConstBig(c.V))
 			}
-			return it.fail("64-bit division by a non-constant")
+			// symbolic divisor: SMT-LIB fixes x/0 = all ones and x%0 = x for bit-vectors
+			a, b := it.tr(t.Args[0]), it.tr(t.Args[1])
+			if t.Op == "bvudiv" {
+				return Ite(Eq(b, IntConst(0)), IntConstBig(mask(64)), IntOp("div", a, b))
+			}
+			return Ite(Eq(b, IntConst(0)), a, IntOp("mod", a, b))
 		case "bvsdiv", "bvsrem":
 			if c := t.Args[1]; c.Op == "const" && c.V.Sign() > 0 && c.V.Cmp(two63) < 0 {
 				sa := signedT(it.tr(t.Args[0]))
@@ -288,7 +293,21 @@ func (it *intTr) tr1(t *Term) *Term {
 				}
 				return modT(IntOp("-", sa, IntOp("*", cc, q)), m64())
 			}
-			return it.fail("64-bit signed division by a non-constant")
+			{
+				sa, sb := signedT(it.tr(t.Args[0])), signedT(it.tr(t.Args[1]))
+				abs := func(x *Term) *Term { return Ite(IntOp("<", x, IntConst(0)), IntOp("-", IntConst(0), x), x) }
+				qa := IntOp("div", abs(sa), abs(sb))
+				ra := IntOp("mod", abs(sa), abs(sb))
+				neg := func(x *Term) *Term { return IntOp("-", IntConst(0), x) }
+				sameSign := Eq(IntOp("<", sa, IntConst(0)), IntOp("<", sb, IntConst(0)))
+				if t.Op == "bvsdiv" {
+					// Go (and SMT-LIB bvsdiv) truncate toward zero; division by zero is excluded by a #div obligation
+					q := Ite(sameSign, qa, neg(qa))
+					return Ite(Eq(sb, IntConst(0)), Ite(IntOp("<", sa, IntConst(0)), IntConst(1), IntConstBig(mask(64))), modT(q, m64()))
+				}
+				r := Ite(IntOp("<", sa, IntConst(0)), neg(ra), ra)
+				return Ite(Eq(sb, IntConst(0)), it.tr(t.Args[0]), modT(r, m64()))
+			}
 		case "bvlshr":
 			if c := t.Args[1]; c.Op == "const" && c.V.IsInt64() && c.V.Int64() < 64 {
 				return IntOp("div", it.tr(t.Args[0]), IntConstBig(new(big.Int).Lsh(big.NewInt(1), uint(c.V.Int64()))))
